@@ -469,7 +469,8 @@ def _text_of(x, how):
     mim = T.V("float", -x.v.im if im_neg else x.v.im)
     if shape.count("7.5") != 1 or shape.count("3.5") != 1:
         raise Abort("unexpected text shape %r" % shape)
-    return shape.replace("7.5", REG.lexeme(mre, "float")).replace("3.5", REG.lexeme(mim, "float"))
+    lre, lim = REG.lexeme(mre, "float"), REG.lexeme(mim, "float")
+    return _re.sub(r"7\.5|3\.5", lambda m: lre if m.group(0) == "7.5" else lim, shape)   # single pass
 
 
 # ---------------------------------------------------------------- parsing text that may contain placeholders
